@@ -62,12 +62,16 @@ ASSUME /\ ImplView(Explode("a OCTET STRING"), {DevMultiWordKeywordSingleSpace}) 
        /\ ImplView(Explode("a SEQUENCE OF B"), {DevMultiWordKeywordSingleSpace}) = ImplView(Explode("a SEQUENCE\nOF\tB"), {DevMultiWordKeywordSingleSpace})
        /\ ImplView(Explode("a OCTET STRING"), {}) = ImplView(Explode("a OCTET  STRING"), {})
        /\ ImplView(Explode("x \"a--b\" ,\ny"), {DevCommentMarkerInString}) # ImplView(Explode("x \"a--b\" , y"), {DevCommentMarkerInString})
+       /\ ImplView(Explode("a T.&id (1)"), {DevClassFieldRefNoSpace}) # ImplView(Explode("a T .&id (1)"), {DevClassFieldRefNoSpace})
+       /\ ImplView(Explode("a T.&id (1)"), {DevClassFieldRefNoSpace}) = ImplView(Explode("a  T.&id(1)"), {DevClassFieldRefNoSpace})
+       /\ ImplView(Explode("A ::= ENUMERATED {a}"), {DevReservedWordNeedsSpace}) # ImplView(Explode("A ::= ENUMERATED{a}"), {DevReservedWordNeedsSpace})
+       /\ ImplView(Explode("A ::= ENUMERATED {a}"), {DevReservedWordNeedsSpace}) = ImplView(Explode("A ::= ENUMERATED\n{ a}"), {DevReservedWordNeedsSpace})
+       /\ ImplView(Explode("A ::= ENUMERATED {a}"), {DevMultiWordKeywordSingleSpace}) = ImplView(Explode("A ::= ENUMERATED{a}"), {DevMultiWordKeywordSingleSpace})
        /\ \A j \in 1..Len(AffectedKeywords) :
             LET ws == X(AffectedKeywords[j]) IN \A q \in 1..(Len(ws) - 1) : InAffectedKeyword(ws[q], ws[q + 1])
 
 (* fillers: each is blank on its own; the guard of Change implies inertness *)
-SampleToks == <<"A", "::=", "{", "}", "(", ")", ",", "OCTET", "STRING", "-5", "1", "..", "...", "[[", "]]", "[", "]",
-                "\"x--y\"", "'01'B", "&id", ".", ":", "a-b", "1.5", "|">>
+SampleToks == <<"A", "::=", "{", ")", ",", "STRING", "-5", "1", "..", "...", "[[", "]", "\"x--y\"", "'01'B", "&id", ".", ":", "|">>
 ASSUME \A fi \in 2..Len(Fillers) : FillerOK[fi]
 ASSUME \A a \in 1..Len(SampleToks), b \in 1..Len(SampleToks), fi \in 1..Len(Fillers) :
           MayPlace(SampleToks[a], fi, SampleToks[b]) => Inert(SampleToks[a], Fillers[fi], SampleToks[b])
